@@ -414,6 +414,11 @@ void NifFile::SortController(NiTimeController* controller, SortState& sortState)
 }
 
 void NifFile::SortCollision(NiObject* parent, uint32_t parentIndex, SortState& sortState) {
+	// Mark the parent as visited before descending, so that a reference cycle among
+	// collision blocks cannot recurse forever. Its sort index is still assigned after
+	// the blocks that have to come before it.
+	bool assignIndex = sortState.visitedIndices.insert(parentIndex).second;
+
 	auto constraint = dynamic_cast<bhkConstraint*>(parent);
 	if (constraint) {
 		for (auto& entityId : constraint->entityRefs) {
@@ -454,10 +459,8 @@ void NifFile::SortCollision(NiObject* parent, uint32_t parentIndex, SortState& s
 	}
 
 	// Assign new sort index
-	if (sortState.visitedIndices.count(parentIndex) == 0) {
+	if (assignIndex)
 		sortState.newIndices[parentIndex] = sortState.newIndex++;
-		sortState.visitedIndices.insert(parentIndex);
-	}
 
 	for (auto& id : childIndices) {
 		auto child = hdr.GetBlock<NiObject>(id);
